@@ -312,8 +312,63 @@ func runC01(r *Runner, g *Gen, tier string) string {
 	return "type-directed generation: random struct/slice/map/pointer/named/recursive type definitions (depth<=3, reflect-built plus a static corpus of named and recursive types) under the four option combinations, boundary-biased values; op = Marshal then Unmarshal into a fresh variable; non-trivial = value contains a non-empty container, non-nil pointer or struct with fields; distinct = distinct op text"
 }
 
+var freshSeq int
+
+// freshCfg: a configuration string that no earlier op used, hence an instance whose
+// registry holds nothing but the defaults (a marker registration under a unique,
+// otherwise unused tag name makes the key unique).
+func freshCfg(flags string) string {
+	freshSeq++
+	return fmt.Sprintf("(cfg %s (reg %s %s flat64))", flags, hxs("MyI64"), hxs(fmt.Sprintf("fresh%d", freshSeq)))
+}
+
+// twiceStruct: one type used by two fields of the same struct under different tag
+// options (in either order), on an instance that has never built a codec for it.
+func (g *Gen) twiceStruct() *TyDef {
+	type pair struct {
+		t   *TyDef
+		opt string
+	}
+	inner := Struct(F("A", "1", B("int")))
+	ps := []pair{
+		{named("MyInt"), "flat"}, {named("MyI32"), "flat"}, {named("MyI64"), "flat"}, {Ptr(B("int")), "flat"}, {Ptr(B("int64")), "flat"},
+		{Ptr(named("MyInt")), "flat"}, {named("MyStr"), "intern"}, {Slice(B("str")), "proto"}, {Slice(inner), "proto"},
+		{named("MyStrs"), "proto"}, {Map(B("str"), B("int")), "proto"}, {Slice(Slice(B("uint8"))), "proto"},
+	}
+	pi := g.r.Intn(len(ps))
+	p := ps[pi]
+	a := &FieldDef{Name: "A", Exported: true, Plenc: "1", T: p.t}
+	b := &FieldDef{Name: "B", Exported: true, Plenc: "2," + p.opt, T: p.t}
+	fs := []*FieldDef{a, b}
+	if g.r.Bool() {
+		fs = []*FieldDef{b, a}
+	}
+	if g.r.P(40) && pi < 7 { // a slice of it, where that is a legal type
+		fs = append(fs, &FieldDef{Name: "C", Exported: true, Plenc: "3", T: Slice(p.t)})
+	}
+	if g.r.P(30) {
+		return Struct(F("W", "1", Struct(fs...)), F("X", "2", p.t))
+	}
+	return Struct(fs...)
+}
+
 func runC02(r *Runner, g *Gen, tier string) string {
 	n := scale(tier, 4000, 300000)
+	for i := 0; i < scale(tier, 250, 20000); i++ {
+		flags := g.pickCfg()
+		t := g.twiceStruct()
+		if knownShape(flags, t, false) {
+			continue
+		}
+		b := 30
+		v := g.Value(t, &b)
+		if multiEntryMaps(v) {
+			continue
+		}
+		cfg := freshCfg(flags)
+		r.Do(codecOp("enc", cfg, t, "", v.Sexp()), true, "enc.fresh-twice")
+		r.Do(codecOp("rt", cfg, t, "", v.Sexp()), true, "rt.fresh-twice")
+	}
 	for i := 0; i < n; i++ {
 		cfg := g.pickCfg()
 		t, v := g.sample(cfg, 3)
@@ -392,6 +447,9 @@ func (g *Gen) presenceStruct(depth int) *TyDef {
 			t = Ptr(g.ftype())
 		case 4:
 			t = Ptr(g.ltypeNoPtr(depth - 1))
+			if g.r.P(35) {
+				t = Ptr(g.sliceType(0, false)) // a pointer to a slice has presence too
+			}
 		case 5:
 			var v *TyDef
 			if g.r.Bool() {
@@ -447,7 +505,14 @@ func runC09(r *Runner, g *Gen, tier string) string {
 		t := g.presenceStruct(2)
 		b := 40
 		v := g.Value(t, &b)
+		if knownShape(flags, t, false) {
+			continue
+		}
 		r.Do(codecOp("rt", cfg, t, "", v.Sexp()), nontrivialVal(t, v), "rt.presence")
+		if i%4 == 0 {
+			// … and the Descriptor flags explicit presence for exactly those fields
+			r.Do(codecOp("desc", cfg, t, ""), true, "desc.presence")
+		}
 	}
 	return "structs whose fields are pointers (to scalars, floats, strings, bytes, times, structs), null.Int/Bool/Float/String/Time (null.String also interned), maps with pointer or null values, nested and behind pointers, beside plain fields; pointees are nil / zero-or-empty / random with probability ~1/3 each; op = round trip; oracle: nil-ness / Valid flag and pointee preserved exactly, plain zero fields read back zero"
 }
